@@ -115,6 +115,62 @@ class _Parens(cst.CSTTransformer):
         return updated_node.with_changes(value=self._wrap(updated_node.value))
 
 
+class _ParenBreak(cst.CSTTransformer):
+    """a == b  ->  (a ==\n    b): every comparison / boolean / binary operation gets its own parentheses and a line
+    break after its first operator (legal only because of the parentheses)."""
+
+    NL = cst.ParenthesizedWhitespace(first_line=cst.TrailingWhitespace(), indent=True, last_line=cst.SimpleWhitespace("        "))
+
+    def __init__(self):
+        self.changed = False
+
+    def _wrap(self, node):
+        self.changed = True
+        return node.with_changes(lpar=[cst.LeftParen()], rpar=[cst.RightParen()])
+
+    def leave_Comparison(self, original_node, updated_node):
+        if updated_node.lpar:
+            return updated_node
+        first = updated_node.comparisons[0]
+        op = first.operator
+        if not hasattr(op, "whitespace_after"):
+            return updated_node
+        comps = [first.with_changes(operator=op.with_changes(whitespace_after=self.NL)), *updated_node.comparisons[1:]]
+        return self._wrap(updated_node.with_changes(comparisons=comps))
+
+    def leave_BooleanOperation(self, original_node, updated_node):
+        if updated_node.lpar:
+            return updated_node
+        return self._wrap(updated_node.with_changes(operator=updated_node.operator.with_changes(whitespace_after=self.NL)))
+
+    def leave_BinaryOperation(self, original_node, updated_node):
+        if updated_node.lpar:
+            return updated_node
+        return self._wrap(updated_node.with_changes(operator=updated_node.operator.with_changes(whitespace_after=self.NL)))
+
+
+class _ParenAll(cst.CSTTransformer):
+    """Redundant parentheses around every comparison / boolean operation / unary not and around assignment values."""
+
+    def __init__(self):
+        self.changed = False
+
+    def _wrap(self, node):
+        if getattr(node, "lpar", None):
+            return node
+        self.changed = True
+        return node.with_changes(lpar=[cst.LeftParen()], rpar=[cst.RightParen()])
+
+    def leave_Comparison(self, original_node, updated_node):
+        return self._wrap(updated_node)
+
+    def leave_BooleanOperation(self, original_node, updated_node):
+        return self._wrap(updated_node)
+
+    def leave_UnaryOperation(self, original_node, updated_node):
+        return self._wrap(updated_node)
+
+
 # --------------------------------------------------------------------------- arguments
 
 
@@ -347,6 +403,8 @@ _reg("layout:spaces", "layout", 0, _mk(_visit(_Spaces)), True)
 _reg("layout:comment", "layout", 0, _mk(_visit(_Comment)), True)
 _reg("layout:semicolon", "layout", 0, _mk(_visit(_Semicolon)), False)
 _reg("layout:parens", "layout", 0, _mk(_visit(_Parens)), True)
+_reg("layout:paren-break", "layout", 0, _mk(_visit(_ParenBreak)), True)
+_reg("layout:paren-exprs", "layout", 0, _mk(_visit(_ParenAll)), True)
 _reg("args:starstar", "args", 0, _mk(_visit(_StarStar)), False)
 _reg("args:reorder-kw", "args", 0, _mk(_visit(_ReorderKw)), False)
 _reg("args:star-rest", "args", 0, _mk(_visit(_ExtraPositionalStar)), False)
